@@ -163,6 +163,8 @@ enum Prim {
     Sync,
     Burst { n: u32, w: u32, gets: bool },
     Counters,
+    GetFresh { sel: u16 },
+    ContainsFresh { sel: u16 },
 }
 
 fn expand(ops: &[Op]) -> Vec<(usize, Prim)> {
@@ -190,6 +192,8 @@ fn expand(ops: &[Op]) -> Vec<(usize, Prim)> {
             }
             Op::Burst { n, w, gets } => v.push((i, Prim::Burst { n, w, gets })),
             Op::Counters => v.push((i, Prim::Counters)),
+            Op::GetFresh { sel } => v.push((i, Prim::GetFresh { sel })),
+            Op::ContainsFresh { sel } => v.push((i, Prim::ContainsFresh { sel })),
         }
     }
     v
@@ -583,6 +587,20 @@ impl<'a> Exec<'a> {
     }
 
     fn step(&mut self, step: usize, prim: Prim) -> Result<(), Violation> {
+        // lookups of burst keys are resolved against the bursts executed so far
+        let fresh = |sel: u16, total: u32| 1_000_000 + ((sel as u64 * total.max(1) as u64) >> 16) as u32;
+        let total_fresh = self.next_burst_key - 1_000_000;
+        let prim = match prim {
+            Prim::GetFresh { sel } => {
+                self.stats.inc("lookups_of_burst_keys");
+                Prim::Get { k: fresh(sel, total_fresh) }
+            }
+            Prim::ContainsFresh { sel } => {
+                self.stats.inc("lookups_of_burst_keys");
+                Prim::Contains { k: fresh(sel, total_fresh) }
+            }
+            p => p,
+        };
         let now = self.now;
         let mut is_m_op = false; // unsync: op that runs maintenance at its start
         let mut explicit_sync = false;
@@ -832,6 +850,7 @@ impl<'a> Exec<'a> {
                     gets_in_op = n as u64;
                 }
             }
+            Prim::GetFresh { .. } | Prim::ContainsFresh { .. } => unreachable!(),
             Prim::Counters => {
                 let ec = self.subr().entry_count();
                 let ws = self.subr().weighted_size();
